@@ -557,3 +557,20 @@ Theorem dkl_gaussian_1d_covariance_form :
    = ln (s2 / s1) + (s1 * s1 + (m1 - m2) * (m1 - m2)) / (2 * (s2 * s2)) - 1 / 2)%R.
 Proof. exact dkl_gaussian_1d. Qed.
 Print Assumptions dkl_gaussian_1d_covariance_form.
+
+(* ===================================================================== 10. dkl_wishart *)
+(* The arithmetic TRANSLATED from bgmm.dkl_wishart, with the log-determinants, log 2, the
+   multivariate log-gamma and digamma sums and trace(B2 inv(B1)) threaded in as oracle values, is
+   the textbook KL( W(a1, inv B1) || W(a2, inv B2) ): log-det term weighted by a2, trace term by
+   a1, the digamma term psi_p(a1/2) of the FIRST density only (PS2, log 2 and lgc cancel). *)
+Theorem dkl_wishart_is_textbook :
+  forall a1 a2 dim LD1 LD2 L2 lgc G1 G2 PS1 PS2 TR,
+  src_dkl_wishart a1 a2 dim LD1 LD2 L2 lgc G1 G2 PS1 PS2 TR
+  == dkl_wishart_textbook a1 a2 dim LD1 LD2 lgc G1 G2 PS1 TR.
+Proof. exact dkl_wishart_code_is_textbook. Qed.
+Print Assumptions dkl_wishart_is_textbook.
+
+(* the divergence of a distribution from itself is 0 (non-vacuity of the textbook form) *)
+Example dkl_wishart_self_zero :
+  forall a dim LD lgc G PS, dkl_wishart_textbook a a dim LD LD lgc G G PS dim == 0.
+Proof. intros. unfold dkl_wishart_textbook. ring. Qed.
